@@ -174,6 +174,10 @@ func runC13(w *fw.W) {
 		{fam: "special", recv: "3", steps: []c13step{{name: "var-callable-object", src: ".^callable"}, {name: "operator+", src: ".+(1)"}}},
 		{fam: "special", recv: "3", steps: []c13step{{name: "var-not-callable", src: ".^wrapped", fail: &c13fail{"TypeErr", ""}}}},
 		{fam: "special", recv: "[3, 4]", steps: []c13step{{name: "var-builtin-func-on-arr", src: ".^lenf"}}},
+		// a property holding an iterator is handed out, not stepped
+		{fam: "special", recv: "{it: <{|x| yield x}>, n: 1}", steps: []c13step{{name: "iterator-valued-prop", src: ".it"}}},
+		{fam: "special", recv: "{it: <{|x| yield 5}>.new(1), n: 1}", steps: []c13step{{name: "iterator-valued-prop", src: ".it"}, {name: "next", src: ".next"}}},
+		{fam: "special", recv: "{bi: Int['+], n: 1}", steps: []c13step{{name: "builtin-func-valued-prop", src: ".bi(2)"}}},
 	}
 	chains = append(chains, special...)
 	// replacing step j by a failing step makes chains that differ only in the replaced step identical: keep one
